@@ -783,7 +783,8 @@ class Plucker(SMUserList):
         left = self
         if isinstance(right, Plucker):
             # reciprocal product
-            return np.dot(left.uw, right.v) + np.dot(right.uw, left.v)
+            # of the normalised lines: the moments scale with the direction vectors
+            return np.dot(left.uw, right.v) / np.linalg.norm(right.w) + np.dot(right.uw, left.v) / np.linalg.norm(left.w)
         else:
             raise ValueError('bad arguments')
         
